@@ -2,7 +2,7 @@
 import scopedom
 
 OBS = 'ObsC03'
-LABELS = {'quick': 'abort nested cancel until cancel_close'.split(), 'thorough': 'abort nested cancel until cancel_close'.split()}
+LABELS = {'quick': 'abort nested cancel until cancel_close until_time'.split(), 'thorough': 'abort nested cancel until cancel_close until_time'.split()}
 
 
 def run(check):
